@@ -226,6 +226,47 @@ def top(q: float = 0.5) -> int:
 '''
 
 
+# a top-level function whose parameter is named like a method that encloses a local assignment (the path search of find_in_ast walks
+# over the parameter while looking for the method's owner)
+MODULE2 = '''"""m2"""
+
+
+def retry(run, times=3):
+    """
+    Retry it
+
+    :param run: what to run
+
+    :param times: how often
+    """
+    return run
+
+
+class Job(object):
+    """
+    A job
+    """
+
+    def run(self):
+        """
+        Run it
+
+        :return: outcome
+        """
+        outcome = 5
+        return outcome
+
+    def times(self, run=None):
+        """
+        Count
+
+        :param run: which run
+        """
+        count: int = 2
+        return count
+'''
+
+
 def doctrans_case(arg):
     seed, extra = arg
     import random
@@ -234,7 +275,7 @@ def doctrans_case(arg):
     res = {"seed": seed, "timeouts": [], "runs": 0}
     try:
         fn = os.path.join(d, "m.py")
-        open(fn, "w").write(MODULE % (rng.choice(["", "\n        ", "\n\n        more"]), extra))
+        open(fn, "w").write(MODULE2 if extra == "MODULE2" else MODULE % (rng.choice(["", "\n        ", "\n\n        more"]), extra))
         env = dict(os.environ, PYTHONPATH=REPO, PYTHONHASHSEED="0", PYTHONDONTWRITEBYTECODE="1")
         for k in range(3):
             fmt = rng.choice(["rest", "google", "numpydoc"])
@@ -328,6 +369,7 @@ def run(ctx):
         tr["max_ratio"] = max(tr["max_ratio"], r["max_ratio"])
     extras = ["", ":param q: the q\n    :type q: ```float```", "Args:\n      q (float): the q", "   \n    trailing"]
     dcases = [(ctx.rng.randrange(1 << 30), extras[i % len(extras)]) for i in range(6 if ctx.quick else 40)]
+    dcases += [(ctx.rng.randrange(1 << 30), "MODULE2") for _ in range(2 if ctx.quick else 6)]
     druns = list(run_cases(doctrans_case, dcases, chunk=1))
     for d in druns:
         for t in d.get("timeouts", [])[:1]:
